@@ -135,6 +135,8 @@ fn exec_line(line: &str) -> String {
         ["resp", m, mh, _cap, _mb, segs, rds] => {
             let reads = if let Some(sz) = rds.strip_prefix('B') {
                 resp::Reads::Drain(sz.parse().unwrap_or(8192))
+            } else if let Some(sz) = rds.strip_prefix('T') {
+                resp::Reads::Text(sz.parse().unwrap_or(8192))
             } else if *rds == "-" {
                 resp::Reads::Sizes(vec![])
             } else {
